@@ -236,6 +236,25 @@ func origins(v ssa.Value) []ssa.Value {
 			walk(x.X)
 		case *ssa.TypeAssert:
 			walk(x.X)
+		case *ssa.UnOp:
+			// load of a local that is only stored to directly (defer-spilled results, captured locals):
+			// flow-insensitive union of the stored values
+			if al, ok := x.X.(*ssa.Alloc); ok && x.Op == token.MUL && allocTrackable(al) {
+				n := 0
+				for _, r := range *al.Referrers() {
+					if st, ok := r.(*ssa.Store); ok && st.Addr == al {
+						walk(st.Val)
+						n++
+					}
+				}
+				if n == 0 {
+					out = append(out, v)
+				}
+			} else if fv, ok := x.X.(*ssa.FreeVar); ok && x.Op == token.MUL {
+				out = append(out, fv) // captured variable of the enclosing function
+			} else {
+				out = append(out, v)
+			}
 		case *ssa.Extract:
 			if ta, ok := x.Tuple.(*ssa.TypeAssert); ok && x.Index == 0 {
 				walk(ta.X)
